@@ -1,4 +1,173 @@
-//! PARSE suite (stub)
-pub fn parse_case(_f: &[&str]) -> String {
-    "UNIMPLEMENTED".to_string()
+//! PARSE suite: runs `garnish_lang_compiler::parse::parse` on a token list given directly in the case line.
+//! Case:   PARSE \t id \t TypeName,<escaped text> \t ...      (optional first field `!errclass`: print the error class)
+//! Result: `ok root=<n>` then per node `\tDefinition/SecDef,parent,left,right,TokenTypeName,<escaped text>` | `err`
+use crate::esc::{escape, unescape};
+use garnish_lang_compiler::lex::{LexerToken, TokenType};
+use garnish_lang_compiler::parse::parse;
+
+/// every variant of TokenType; `exhaustive` below makes the build fail if the enum gains a variant
+const ALL_TOKEN_TYPES: &[TokenType] = &[
+    TokenType::Unknown,
+    TokenType::UnitLiteral,
+    TokenType::PlusSign,
+    TokenType::Subtraction,
+    TokenType::Division,
+    TokenType::MultiplicationSign,
+    TokenType::ExponentialSign,
+    TokenType::IntegerDivision,
+    TokenType::Remainder,
+    TokenType::AbsoluteValue,
+    TokenType::Opposite,
+    TokenType::BitwiseNot,
+    TokenType::BitwiseAnd,
+    TokenType::BitwiseOr,
+    TokenType::BitwiseXor,
+    TokenType::BitwiseLeftShift,
+    TokenType::BitwiseRightShift,
+    TokenType::And,
+    TokenType::Or,
+    TokenType::Xor,
+    TokenType::Not,
+    TokenType::Tis,
+    TokenType::StartExpression,
+    TokenType::EndExpression,
+    TokenType::StartGroup,
+    TokenType::EndGroup,
+    TokenType::StartSideEffect,
+    TokenType::EndSideEffect,
+    TokenType::Value,
+    TokenType::Comma,
+    TokenType::Symbol,
+    TokenType::Number,
+    TokenType::Identifier,
+    TokenType::CharList,
+    TokenType::ByteList,
+    TokenType::Whitespace,
+    TokenType::Subexpression,
+    TokenType::ExpressionTerminator,
+    TokenType::ExpressionSeparator,
+    TokenType::Annotation,
+    TokenType::LineAnnotation,
+    TokenType::JumpIfFalse,
+    TokenType::JumpIfTrue,
+    TokenType::ElseJump,
+    TokenType::TypeOf,
+    TokenType::Apply,
+    TokenType::ApplyTo,
+    TokenType::PartialApply,
+    TokenType::Reapply,
+    TokenType::EmptyApply,
+    TokenType::TypeCast,
+    TokenType::TypeEqual,
+    TokenType::Equality,
+    TokenType::Inequality,
+    TokenType::LessThan,
+    TokenType::LessThanOrEqual,
+    TokenType::GreaterThan,
+    TokenType::GreaterThanOrEqual,
+    TokenType::Period,
+    TokenType::LeftInternal,
+    TokenType::RightInternal,
+    TokenType::LengthInternal,
+    TokenType::Pair,
+    TokenType::Concatenation,
+    TokenType::Range,
+    TokenType::StartExclusiveRange,
+    TokenType::EndExclusiveRange,
+    TokenType::ExclusiveRange,
+    TokenType::False,
+    TokenType::True,
+    TokenType::PrefixIdentifier,
+    TokenType::SuffixIdentifier,
+    TokenType::InfixIdentifier,
+];
+
+#[allow(dead_code)]
+fn exhaustive(t: TokenType) {
+    // no wildcard arm on purpose: a new variant breaks the build, i.e. the tie to the code
+    match t {
+        TokenType::Unknown | TokenType::UnitLiteral | TokenType::PlusSign | TokenType::Subtraction | TokenType::Division
+        | TokenType::MultiplicationSign | TokenType::ExponentialSign | TokenType::IntegerDivision | TokenType::Remainder
+        | TokenType::AbsoluteValue | TokenType::Opposite | TokenType::BitwiseNot | TokenType::BitwiseAnd | TokenType::BitwiseOr
+        | TokenType::BitwiseXor | TokenType::BitwiseLeftShift | TokenType::BitwiseRightShift | TokenType::And | TokenType::Or
+        | TokenType::Xor | TokenType::Not | TokenType::Tis | TokenType::StartExpression | TokenType::EndExpression
+        | TokenType::StartGroup | TokenType::EndGroup | TokenType::StartSideEffect | TokenType::EndSideEffect | TokenType::Value
+        | TokenType::Comma | TokenType::Symbol | TokenType::Number | TokenType::Identifier | TokenType::CharList
+        | TokenType::ByteList | TokenType::Whitespace | TokenType::Subexpression | TokenType::ExpressionTerminator
+        | TokenType::ExpressionSeparator | TokenType::Annotation | TokenType::LineAnnotation | TokenType::JumpIfFalse
+        | TokenType::JumpIfTrue | TokenType::ElseJump | TokenType::TypeOf | TokenType::Apply | TokenType::ApplyTo
+        | TokenType::PartialApply | TokenType::Reapply | TokenType::EmptyApply | TokenType::TypeCast | TokenType::TypeEqual
+        | TokenType::Equality | TokenType::Inequality | TokenType::LessThan | TokenType::LessThanOrEqual | TokenType::GreaterThan
+        | TokenType::GreaterThanOrEqual | TokenType::Period | TokenType::LeftInternal | TokenType::RightInternal
+        | TokenType::LengthInternal | TokenType::Pair | TokenType::Concatenation | TokenType::Range
+        | TokenType::StartExclusiveRange | TokenType::EndExclusiveRange | TokenType::ExclusiveRange | TokenType::False
+        | TokenType::True | TokenType::PrefixIdentifier | TokenType::SuffixIdentifier | TokenType::InfixIdentifier => (),
+    }
+}
+
+fn token_type_of_name(name: &str) -> Option<TokenType> {
+    ALL_TOKEN_TYPES.iter().copied().find(|t| format!("{:?}", t) == name)
+}
+
+fn opt(o: Option<usize>) -> String {
+    match o {
+        None => "-".to_string(),
+        Some(i) => i.to_string(),
+    }
+}
+
+pub fn parse_case(f: &[&str]) -> String {
+    let mut fields = &f[2..];
+    let mut errclass = false;
+    if let Some(first) = fields.first() {
+        if *first == "!errclass" {
+            errclass = true;
+            fields = &fields[1..];
+        }
+    }
+    let mut tokens = Vec::with_capacity(fields.len());
+    for field in fields {
+        let (name, text) = match field.find(',') {
+            None => return "BAD-CASE".to_string(),
+            Some(i) => (&field[..i], &field[i + 1..]),
+        };
+        let tt = match token_type_of_name(name) {
+            None => return "BAD-CASE".to_string(),
+            Some(t) => t,
+        };
+        tokens.push(LexerToken::new(unescape(text), tt, 0, 0));
+    }
+    match parse(&tokens) {
+        Err(e) => {
+            if errclass {
+                let m = e.get_message();
+                if m.starts_with("Syntax Error") {
+                    "err syntax".to_string()
+                } else if m.starts_with("Implementation Error") {
+                    "err implementation".to_string()
+                } else {
+                    "err other".to_string()
+                }
+            } else {
+                "err".to_string()
+            }
+        }
+        Ok(r) => {
+            let mut out = format!("ok root={}", r.get_root());
+            for n in r.get_nodes() {
+                let t = n.get_lex_token();
+                out.push_str(&format!(
+                    "\t{:?}/{:?},{},{},{},{:?},{}",
+                    n.get_definition(),
+                    n.get_secondary_definition(),
+                    opt(n.get_parent()),
+                    opt(n.get_left()),
+                    opt(n.get_right()),
+                    t.get_token_type(),
+                    escape(t.get_text())
+                ));
+            }
+            out
+        }
+    }
 }
